@@ -12,7 +12,7 @@ def _configs(tier):
     for n in ns:
         cat = profile_catalogue(tier, n, heavy=(tier == "quick"))
         if n == 3:
-            cat = cat[:4] + cat[-6:-2]
+            cat = [cat[7], cat[-4]]          # SandyLoam x3 and PaddyTop/PaddyPan/PaddyPan (about 10^4 paths each)
         if n == 2:
             cat = cat + [(["Drainy", "Drainy"], [0.2, 0.2]), (["Drainy", "Drainy"], [0.1, 0.3]), (["SandyLoam", "TightClay"], [0.05, 0.15])]
         for layers, dzs in cat:
